@@ -220,7 +220,8 @@ def runCrash (j : Json) : Json :=
       let sf : Ser := { s0 with fork := true }
       let s1 := (sf.serialize 0 (parsePieces j "p") (getBool j "fail")).1
       (List.range ops.length).map (fun k =>
-        let sk := (List.range k).foldl (fun acc _ => acc.childStep) s1
+        -- operation 0 (`remove tmp`) is the caller's; the child has performed k-1 of its own when it is killed
+        let sk := (List.range (k - 1)).foldl (fun acc _ => acc.childStep) s1
         Json.str (statusStr (sk.childKill.checkSerializing none).2.1))
     else []
   Json.mkObj [("ops", Json.arr (ops.map (fun o => Json.str (opStr o))).toArray),
